@@ -70,3 +70,20 @@ func TestC05Oracle(t *testing.T) {
 		Assumptions: []string{"claims that fail stateless validation or the handler's own checks are simply rejected; only blockers are judged here"},
 	}).Main(t)
 }
+
+// TestC05Claims: the claim histories of C02/C03 (conflicting, skipped, repeated claims, stake changes, key rotation);
+// only a panicking or hanging blocker is reported.
+func TestC05Claims(t *testing.T) {
+	(&pbt.Check{
+		ID:   "C05",
+		Part: "claims",
+		Rule: "claim histories as in C02/C03 (validators ahead/behind, conflicting claims that split the power at one nonce while the next one is agreed, repeats, stake changes, unbonding, key rotation); BeginBlocker and both EndBlockers must return at every block; non-trivial = a history with conflicting claims at some nonce or >=1 applied event; distinct = distinct case JSON",
+		Gen:  genAttCase,
+		New:  func() interface{} { return &AttCase{} },
+		Run: func(ci interface{}, rec *pbt.Rec) *pbt.Failure {
+			f := runAttCase("C05")(ci, rec)
+			rec.NonTrivial = true
+			return f
+		},
+	}).Main(t)
+}
